@@ -72,14 +72,18 @@ def f_exact(fr):
 
 
 class V(object):
-    """value = exact Gaussian rational (re, im) or None, float approximation, amplification in ulps"""
-    __slots__ = ('ex', 'ap', 'amp')
+    """value = exact Gaussian rational (re, im) or None, float approximation, amplification in ulps,
+    ct = the implementation holds it as a Python complex (signed zeros then decide the side of a branch cut)"""
+    __slots__ = ('ex', 'ap', 'amp', 'ct')
 
-    def __init__(self, ex, ap, amp):
+    def __init__(self, ex, ap, amp, ct=None):
+        if ap.imag == 0:
+            ap = complex(ap.real, 0.0)          # the oracle itself never carries a negative zero
         self.ex, self.ap, self.amp = ex, ap, amp
+        self.ct = (ap.imag != 0) if ct is None else ct
 
     @staticmethod
-    def exact(re, im=Fraction(0), amp=None):
+    def exact(re, im=Fraction(0), amp=None, ct=None):
         re, im = Fraction(re), Fraction(im)
         if max(abs(re), abs(im)) > Fraction(10)**290:
             raise Skip('range')
@@ -88,7 +92,7 @@ class V(object):
                 raise Skip('range')
         if amp is None:
             amp = 0.0 if (f_exact(re) and f_exact(im)) else 0.5
-        return V((re, im), complex(float(re), float(im)), amp)
+        return V((re, im), complex(float(re), float(im)), amp, ct)
 
     def mag(self):
         return abs(self.ap)
@@ -116,13 +120,13 @@ def _fin(ap):
     return ap
 
 
-def _mk(exv, ap_fallback, amp, exact_inputs):
+def _mk(exv, ap_fallback, amp, exact_inputs, ct):
     if exv is not None:
         re, im = exv
         if exact_inputs and f_exact(re) and f_exact(im):
-            return V.exact(re, im, 0.0)
-        return V.exact(re, im, max(amp, 0.5))
-    return V(None, _fin(ap_fallback), amp)
+            return V.exact(re, im, 0.0, ct)
+        return V.exact(re, im, max(amp, 0.5), ct)
+    return V(None, _fin(ap_fallback), amp, ct)
 
 
 def v_add(a, b, sign=1):
@@ -134,22 +138,23 @@ def v_add(a, b, sign=1):
     if exv is None:
         rmag = abs(ap)
     exact_inputs = a.amp == 0 and b.amp == 0
+    ct = a.ct or b.ct
     if rmag == 0:
         if exv is not None and exact_inputs:
-            return V.exact(0, 0, 0.0)
+            return V.exact(0, 0, 0.0, ct)
         if exv is not None and exv[0] == 0 and exv[1] == 0 and a.mag() == 0 and b.mag() == 0:
-            return V.exact(0, 0, 0.0)
+            return V.exact(0, 0, 0.0, ct)
         raise Skip('cancellation')
     amp = (a.amp * a.mag() + b.amp * b.mag()) / rmag + 1
     # componentwise cancellation (a complex sum whose real or imaginary part alone cancels) is covered by using the
     # norm: the comparison in the check is in norm as well
-    return _mk(exv, ap, amp, exact_inputs)
+    return _mk(exv, ap, amp, exact_inputs, ct)
 
 
 def v_neg(a):
     if a.ex is not None:
-        return V((-a.ex[0], -a.ex[1]), -a.ap, a.amp)
-    return V(None, -a.ap, a.amp)
+        return V((-a.ex[0], -a.ex[1]), -a.ap, a.amp, a.ct)
+    return V(None, -a.ap, a.amp, a.ct)
 
 
 def v_mul(a, b):
@@ -157,7 +162,7 @@ def v_mul(a, b):
     if a.ex is not None and b.ex is not None:
         (p, q), (r, s) = a.ex, b.ex
         exv = (p * r - q * s, p * s + q * r)
-    return _mk(exv, a.ap * b.ap, a.amp + b.amp + 2, a.amp == 0 and b.amp == 0)
+    return _mk(exv, a.ap * b.ap, a.amp + b.amp + 2, a.amp == 0 and b.amp == 0, a.ct or b.ct)
 
 
 def v_inv(b):
@@ -168,7 +173,7 @@ def v_inv(b):
         r, s = b.ex
         d = r * r + s * s
         exv = (r / d, -s / d)
-    return _mk(exv, 1 / b.ap, b.amp + 2, b.amp == 0)
+    return _mk(exv, 1 / b.ap, b.amp + 2, b.amp == 0, b.ct)
 
 
 def v_div(a, b):
@@ -179,7 +184,7 @@ def v_div(a, b):
         (p, q), (r, s) = a.ex, b.ex
         d = r * r + s * s
         exv = ((p * r + q * s) / d, (q * r - p * s) / d)
-    return _mk(exv, a.ap / b.ap, a.amp + b.amp + 3, a.amp == 0 and b.amp == 0)
+    return _mk(exv, a.ap / b.ap, a.amp + b.amp + 3, a.amp == 0 and b.amp == 0, a.ct or b.ct)
 
 
 def _gpow(z, n):
@@ -210,27 +215,32 @@ def v_pow(a, e):
             if n < 0:
                 d = z[0] * z[0] + z[1] * z[1]
                 z = (z[0] / d, -z[1] / d)
-            return _mk(z, None, abs(n) * (a.amp + 2), a.amp == 0)
+            return _mk(z, None, abs(n) * (a.amp + 2), a.amp == 0, a.ct or e.ct)
         try:
             ap = a.ap ** n
         except (OverflowError, ZeroDivisionError):
             raise Skip('range')
-        return V(None, _fin(ap), abs(n) * (a.amp + 2))
+        return V(None, _fin(ap), abs(n) * (a.amp + 2), a.ct or e.ct)
     # non-integer (or inexact) exponent: principal value exp(e * log a), in floating point
     if a.is_zero():
         if e.is_real() and e.ap.real > 0:
-            return V.exact(0)
+            return V.exact(0, 0, None, a.ct or e.ct)
         raise MathErr('divzero')
+    near_cut = a.ap.real < 0 and abs(a.ap.imag) <= 1e-6 * abs(a.ap.real)
+    if near_cut and a.ct:
+        raise Skip('branch cut')        # a complex on the negative real axis: the sign of its zero imaginary part decides
     try:
-        if a.is_real() and a.ap.real > 0 and e.is_real():
+        if (not a.ct) and a.ap.real > 0 and (not e.ct):
             ap = complex(math.pow(a.ap.real, e.ap.real))
+            ct = False
         else:
             ap = cmath.exp(e.ap * cmath.log(a.ap))
+            ct = True
         la = abs(cmath.log(a.ap))
     except (OverflowError, ValueError, ZeroDivisionError):
         raise Skip('range')
     amp = abs(e.ap) * a.amp + abs(e.ap) * la * e.amp + 4 + abs(e.ap) * la
-    return V(None, _fin(ap), amp)
+    return V(None, _fin(ap), amp, ct)
 
 
 def v_par(vals):
@@ -455,24 +465,24 @@ def apply_fn(name, args):
     a = args[0]
     if name == 'abs':
         if a.ex is not None and a.ex[1] == 0:
-            return V((abs(a.ex[0]), Fraction(0)), complex(abs(a.ap)), a.amp)
-        return V(None, _fin(complex(abs(a.ap))), a.amp + 2)
+            return V((abs(a.ex[0]), Fraction(0)), complex(abs(a.ap)), a.amp, False)
+        return V(None, _fin(complex(abs(a.ap))), a.amp + 2, False)
     if name == 're':
         if a.ex is not None:
             if a.ex[0] == 0 and a.amp > 0:
                 raise Skip('cancellation')
-            return V.exact(a.ex[0], 0, a.amp * (a.mag() / abs(float(a.ex[0]))) if a.ex[0] != 0 else 0.0)
+            return V.exact(a.ex[0], 0, a.amp * (a.mag() / abs(float(a.ex[0]))) if a.ex[0] != 0 else 0.0, False)
         raise Skip('re of inexact')
     if name == 'im':
         if a.ex is not None:
             if a.ex[1] == 0 and a.amp > 0 and a.ex[0] != 0:
                 raise Skip('cancellation')
-            return V.exact(a.ex[1], 0, a.amp * (a.mag() / abs(float(a.ex[1]))) if a.ex[1] != 0 else 0.0)
+            return V.exact(a.ex[1], 0, a.amp * (a.mag() / abs(float(a.ex[1]))) if a.ex[1] != 0 else 0.0, False)
         raise Skip('im of inexact')
     if name == 'conj':
         if a.ex is not None:
-            return V((a.ex[0], -a.ex[1]), a.ap.conjugate(), a.amp)
-        return V(None, a.ap.conjugate(), a.amp)
+            return V((a.ex[0], -a.ex[1]), a.ap.conjugate(), a.amp, a.ct)
+        return V(None, a.ap.conjugate(), a.amp, a.ct)
     if name == 'sqrt':
         if a.ex is not None and a.ex[1] == 0 and a.ex[0] >= 0 and a.amp == 0:
             n, d = a.ex[0].numerator, a.ex[0].denominator
@@ -480,8 +490,11 @@ def apply_fn(name, args):
             if rn * rn == n and rd * rd == d:
                 return V.exact(Fraction(rn, rd))
         if a.is_zero():
-            return V.exact(0)
-        return V(None, _fin(cmath.sqrt(a.ap)), a.amp / 2 + 2)
+            return V.exact(0, 0, None, a.ct)
+        if a.ct and a.ap.real < 0 and abs(a.ap.imag) <= 1e-6 * abs(a.ap.real):
+            raise Skip('branch cut')
+        r_ = cmath.sqrt(a.ap)
+        return V(None, _fin(r_), a.amp / 2 + 2, a.ct or r_.imag != 0)
     if name in ('sin', 'cos', 'exp'):
         z = a.ap
         try:
@@ -492,7 +505,7 @@ def apply_fn(name, args):
         if fz == 0:
             raise Skip('cancellation')
         cond = abs(z * dz / fz)
-        return V(None, _fin(fz), a.amp * cond + 2 + cond)
+        return V(None, _fin(fz), a.amp * cond + 2 + cond, a.ct)
     raise ValueError(name)
 
 
@@ -504,17 +517,18 @@ def denote(e, var_key):
         if e[2]:
             m = SUFFIX_VALUES[e[2]]
             # float(text) * suffix: two roundings
+            # float(text) * suffix: up to three roundings unless the multiplier is itself a double
             val = V.exact(v * m)
-            if val.amp:
-                val = V(val.ex, val.ap, 2.0)
+            if val.amp or not f_exact(m):
+                val = V(val.ex, val.ap, 2.0, False)
             return val
         return V.exact(v)
     if k == 'var':
         n = e[1]
         if n in CONSTS:
-            return V(None, complex(CONSTS[n]), 0.5)
+            return V(None, complex(CONSTS[n]), 0.5, False)
         if n in ('i', 'j'):
-            return V.exact(0, 1)
+            return V.exact(0, 1, None, True)
         re_, im_ = VAR_TABLES[var_key][n]
         return V.exact(re_, im_)
     if k == 'paren':
@@ -924,6 +938,89 @@ def impl_parse(s):
     return 'IOther', ('other', '%s: %r' % (st, r))
 
 
+def _tree_terms(parsed):
+    PR = impl()['ParseResults']
+    names = lambda xs: '[' + ';'.join(strl(x) for x in sorted(xs)) + ']'       # noqa
+    return ('(ITree %s %s %s %s)' % (sexp_term(parsed.tree, PR), names(parsed.variables_used),
+                                     names(parsed.functions_used), names(parsed.suffixes_used)),
+            ('tree', sexp_text(parsed.tree, PR)), parsed.tree)
+
+
+def impl_parse_via(s, r):
+    """the parse of s as observed through the evaluator() call that produced r (its parser cache / its exception);
+    falls back to the private parser where the front door's strip() could make a difference.
+    Returns (coq term, summary, ParseResults or None)"""
+    I = impl()
+    cx = I['cx']
+    core_ws = ' \t\n\r'
+    if s.strip() != s.strip(core_ws) or s.strip() == '':
+        t, summ = impl_parse(s)
+        return t, summ, None
+    if r['status'] == 'exc':
+        e = r['exc']
+        m = str(e)
+        if isinstance(e, cx.UnbalancedBrackets):
+            k = ('CloseWithoutOpen' if 'closed without ever' in m else 'WrongCloser' if 'opened and then' in m
+                 else 'OpenWithoutClose')
+            return '(IUnbal %s)' % k, ('unbalanced', k), None
+        if isinstance(e, cx.UnableToParse) and 'Could not parse' in m:
+            return 'IUnparsable', ('unparsable', ''), None
+    parsed = I['ex'].PARSER.cache.get(s.strip().replace(' ', ''))
+    if parsed is None:
+        t, summ = impl_parse(s)
+        return t, summ, None
+    return _tree_terms(parsed)
+
+
+def expr_of_tree(t):
+    """ParseResults -> derivation (used only to estimate the conditioning of strings that were not generated from one)"""
+    PR = impl()['ParseResults']
+    if not isinstance(t, PR):
+        raise ValueError('leaf')
+    k = t.getName()
+    kids = list(t)
+    if k == 'number':
+        return ('num', kids[0], kids[1] if len(kids) > 1 else None)
+    if k == 'variable':
+        return ('var', kids[0])
+    if k == 'function':
+        return ('app', kids[0], [expr_of_tree(a) for a in kids[1]])
+    if k == 'parentheses':
+        return ('paren', expr_of_tree(kids[0]))
+    if k == 'array':
+        return ('arr', [expr_of_tree(a) for a in kids])
+    if k == 'negation':
+        return ('neg', expr_of_tree(kids[-1]))
+    if k == 'parallel':
+        return ('par', [expr_of_tree(a) for a in kids])
+    if k == 'power':
+        e = expr_of_tree(kids[-1])
+        for c in reversed(kids[:-1]):
+            if isinstance(c, str):
+                e = ('neg', e)
+            else:
+                e = ('pow', expr_of_tree(c), e)
+        return e
+    if k in ('product', 'sum'):
+        lead = False
+        if isinstance(kids[0], str):
+            lead, kids = True, kids[1:]
+        e = expr_of_tree(kids[0])
+        if lead:
+            e = ('pos', e)
+        for op, c in zip(kids[1::2], kids[2::2]):
+            e = ({'+': 'add', '-': 'sub', '*': 'mul', '/': 'div'}[op], e, expr_of_tree(c))
+        return e
+    raise ValueError(k)
+
+
+def guard_of_tree(tree, var_key):
+    try:
+        return expected_of(expr_of_tree(tree), var_key)
+    except (KeyError, ValueError, IndexError, TypeError):
+        return None
+
+
 def val_term(v):
     I = impl()
     if isinstance(v, I['MathArray']) or isinstance(v, (list, tuple)):
@@ -1100,7 +1197,8 @@ def tables_text():
     st = []
     for key in ('default', 'metric'):
         _, suffixes = scope('int', key)
-        st.append('[' + '; '.join('(%s, %s)' % (strl(n), ql(suffixes[n])) for n in sorted(suffixes)) + ']')
+        # the decimal the author wrote (as in Gen/EvalTables.v), not the double nearest to it
+        st.append('[' + '; '.join('(%s, %s)' % (strl(n), ql(Fraction(repr(suffixes[n])))) for n in sorted(suffixes)) + ']')
     fn = '[' + '; '.join(strl(n) for n in FUNC_NAMES) + ']'
     return ('Definition var_tables : list (list (str * val)) :=\n  [' + ';\n   '.join(vt) + '].\n'
             'Definition suf_tables : list (list (str * Q)) :=\n  [' + ';\n   '.join(st) + '].\n'
@@ -1245,11 +1343,20 @@ class Collector(object):
     def count(self, k, n=1):
         self.dist[k] = self.dist.get(k, 0) + n
 
-    def add(self, s, var_key, suf_key, r, max_dim=None, with_parse=True, stream=''):
-        pt, summary = (None, None)
-        if with_parse and s is not None:
-            pt, summary = impl_parse(s)
-        self.terms.append(case_term(s, var_key, suf_key, max_dim, r['graph'], pt, r['out']))
+    def add(self, s, var_key, suf_key, r, max_dim=None, stream='', exp=None):
+        """exp: the oracle's prediction for a generated derivation (its conditioning estimate is the guard band of the
+        value comparison); for strings without a derivation the estimate is taken from the parsed tree"""
+        pt, summary, tree = (None, None, None)
+        if s is not None:
+            pt, summary, tree = impl_parse_via(s, r)
+        if exp is None and tree is not None:
+            exp = guard_of_tree(tree, var_key)
+        out = r['out']
+        if exp is not None and exp[0] == 'skip' and r['cls'] in ('value', 'CalcZeroDivisionError', 'CalcOverflowError',
+                                                                'FunctionError'):
+            out = 'ISkip'
+            self.count('value_guarded:' + exp[1])
+        self.terms.append(case_term(s, var_key, suf_key, max_dim, r['graph'], pt, out))
         self.metas.append({'formula': s, 'vars': var_key, 'suffixes': suf_key, 'max_array_dim': max_dim, 'stream': stream,
                            'impl_parse': summary, 'impl_outcome': r['cls'],
                            'impl_value': repr(r.get('value')) if r['status'] == 'ret' else repr(r.get('exc'))})
@@ -1291,10 +1398,10 @@ def run_sequences(ctx, res, col, rng, sz):
             var_key = ('int', 'dec', 'cplx')[(idx + li) % 3]
             s = lead + lv[0] + ''.join(c + l for c, l in zip(seq, lv[1:]))
             r = run_impl(s, var_key, 'default')
-            col.add(s, var_key, 'default', r, stream='sequence')
-            res.oracle_evals += 1
             e = seq_to_expr(lead, seq, lv)
             exp = expected_of(e, var_key)
+            col.add(s, var_key, 'default', r, stream='sequence', exp=exp)
+            res.oracle_evals += 1
             col.count('seq_expected:' + exp[0])
             if lead == '+':
                 continue            # leading plus: correspondence only
@@ -1328,7 +1435,7 @@ def run_derivations(ctx, res, col, rng, sz):
             else:
                 s = join_tokens(tokens(e), rng, style)
             r = run_impl(s, var_key, suf_key)
-            col.add(s, var_key, suf_key, r, stream='derivation:' + style)
+            col.add(s, var_key, suf_key, r, stream='derivation:' + style, exp=exp)
             res.oracle_evals += 1
             bad = check_value(r, exp)
             if bad:
@@ -1439,7 +1546,7 @@ def run_graders(ctx, res, col, rng, sz):
         want = exp[1].real
         student = join_tokens(tokens(add_parens(e, rng, 0.1)), rng, rng.choice(['canon', 'ws', 'spaces', 'emdash']))
         for cls in (NumericalGrader, FormulaGrader):
-            for answer, should in ((repr(want), True), (repr(want * 1.01 + 0.01), False)):
+            for answer, should in ((repr(want), True), (repr(want * 1.02 + math.copysign(0.01, want)), False)):
                 g = cls(answers=answer, tolerance='0.0001%')
                 st, r = core.guarded(g, None, student)
                 res.oracle_evals += 1
@@ -1494,7 +1601,7 @@ def run(ctx):
         m['what'] = 'trees / name sets differ' if code == 1 else 'outcomes differ'
         res.disagreements.append(m)
     col.dist['model_declines_value(outside exact-rational domain)'] = declined
-    res.boundary = declined + col.dist.get('derivation_expected:skip', 0) + col.dist.get('seq_expected:skip', 0)
+    res.boundary = declined + sum(v for k, v in col.dist.items() if k.startswith('value_guarded:'))
     res.distribution = col.dist
     pick = [m for m in col.metas if m['stream'].startswith('derivation')][:3] + \
            [m for m in col.metas if m['stream'] == 'sequence'][100:102] + \
